@@ -157,6 +157,65 @@ func c03Body(w *W) {
 	c03L2(w, s)
 	c03L3(w, s)
 	c03L4(w, s)
+	c03L5(w, s)
+}
+
+// L5: plain decimals (no exponent) of every significant-digit count 1..19, an arithmetic
+// lattice of mantissas per count with the decimal point at every position - the range where
+// a fast path computing mantissa / 10^k in floating point would round twice.
+func c03L5(w *W, s *parseSession) {
+	per := 1500
+	if w.Thorough() {
+		per = 20000
+	}
+	w.Note(fmt.Sprintf("L5: for every digit count 1..19, %d mantissas on an arithmetic lattice over [10^(L-1), 10^L) (plus the neighbourhoods of 2^53 and 2^63), each written with the decimal point at every position", per))
+	emit := func(ms string) {
+		for p := 1; p < len(ms); p++ {
+			if ms[len(ms)-1] == '0' && p < len(ms) {
+				// trailing zero after the point is fine: still a valid literal
+			}
+			w.res.Transitions++
+			c03Lit(w, s, []byte(ms[:p]+"."+ms[p:]), "C03-L5")
+		}
+		w.res.Transitions++
+		c03Lit(w, s, []byte("0."+ms), "C03-L5")
+	}
+	for L := 1; L <= 19; L++ {
+		lo := new(big.Int).Exp(big.NewInt(10), big.NewInt(int64(L-1)), nil)
+		span := new(big.Int).Mul(lo, big.NewInt(9))
+		n := int64(per)
+		if span.IsInt64() && span.Int64() < n {
+			n = span.Int64()
+		}
+		stride := new(big.Int).Div(span, big.NewInt(n))
+		for i := int64(0); i < n; i++ {
+			w.res.States++
+			if !w.Mine() || w.Expired() || w.TooManyViolations() {
+				continue
+			}
+			m := new(big.Int).Mul(stride, big.NewInt(i))
+			m.Add(m, lo)
+			m.Add(m, big.NewInt((i*7919)%1000003%strideMod(stride)))
+			emit(m.String())
+		}
+	}
+	for _, c := range []string{"9007199254740992", "9223372036854775808", "9999999999999999", "1000000000000000"} {
+		cv, _ := new(big.Int).SetString(c, 10)
+		for d := int64(-40); d <= 40; d++ {
+			w.res.States++
+			if !w.Mine() {
+				continue
+			}
+			emit(new(big.Int).Add(cv, big.NewInt(d)).String())
+		}
+	}
+}
+
+func strideMod(b *big.Int) int64 {
+	if b.IsInt64() && b.Int64() > 0 {
+		return b.Int64()
+	}
+	return 1 << 62
 }
 
 // L1: every grammar string up to n over a 10-character alphabet (enumerated through the
